@@ -19,7 +19,7 @@ func init() {
 	register(&Check{
 		ID: "C08", Level: "exploration", Primary: "cells", EvalCount: "connections_checked",
 		Rule: "matrix: connection endings {client FIN, client RST, Unbind, malformed frame, unsupported operation, mid-frame disconnect, read-timeout expiry, recovered panic in an inline (unbind-route) handler, " +
-			"recovered panic in a request-goroutine handler followed by FIN, server Stop} x in-flight states {no handler, k handlers parked on a harness gate (with distinct message IDs, all with the same one, and parked only after they have sent their final response), handlers writing large responses, slow requests sent in the same write as the ending (dispatched just before the connection ends), the inline StartTLS handler blocked in a handshake the client never completes (plain transport; endings FIN, RST, read timeout, Stop), the same with two handlers of earlier requests parked, two handlers parked BEFORE a StartTLS upgrade that succeeds (endings FIN, RST, Stop)} x transports {plain, TLS listener, " +
+			"recovered panic in a request-goroutine handler followed by FIN, server Stop} x in-flight states {no handler, k handlers parked on a harness gate (with distinct message IDs, all with the same one, and parked only after they have sent their final response), handlers writing large responses, slow requests sent in the same write as the ending (dispatched just before the connection ends), the inline StartTLS handler blocked in a handshake the client never completes (plain transport; endings FIN, RST, read timeout, Stop), the same with two handlers of earlier requests parked, two handlers parked BEFORE a StartTLS upgrade that succeeds (endings FIN, RST, Stop), a parked handler next to one that writes a large response nobody reads (ending Stop; the client probes the server's socket by writing, seconds later)} x transports {plain, TLS listener, " +
 			"StartTLS-upgraded}; every connection first makes one verified round trip (this maps the client socket to its ConnectionID). For endings where the client stays connected the gate is opened only after the " +
 			"client has watched its socket for a grace period: an EOF seen before the release is a certain violation. Offline oracle over the event log per connection ID: exactly one OnClose, stamped after " +
 			"the exit of every handler of that connection; at quiescence no goroutine with a gldap frame and no socket descriptor remain. distinct_nontrivial = distinct (ending, in-flight, transport) cells exercised",
@@ -27,7 +27,7 @@ func init() {
 		Phases: func(tier string, seed int64) []Phase {
 			return []Phase{{Name: "matrix", Run: c08Run}}
 		},
-		MinObserved: []string{"connections_checked", "onclose_events", "handler_exits_recorded", "eof_withheld_until_release_observed", "just_dispatched_endings_checked", "endings_with_a_starttls_handshake_pending", "connections_closed_while_another_connection_waits_for_its_handler", "connections_with_failed_writes_next_to_a_parked_handler", "tls_connections_ended_before_the_handshake", "endings_with_parked_handlers_and_a_starttls_handshake_pending", "endings_of_connections_upgraded_while_handlers_were_parked", "stop_endings_on_a_server_without_panic_recovery"},
+		MinObserved: []string{"connections_checked", "onclose_events", "handler_exits_recorded", "eof_withheld_until_release_observed", "just_dispatched_endings_checked", "endings_with_a_starttls_handshake_pending", "connections_closed_while_another_connection_waits_for_its_handler", "connections_with_failed_writes_next_to_a_parked_handler", "tls_connections_ended_before_the_handshake", "endings_with_parked_handlers_and_a_starttls_handshake_pending", "endings_of_connections_upgraded_while_handlers_were_parked", "stop_endings_on_a_server_without_panic_recovery", "stop_endings_with_a_parked_handler_next_to_a_writer_nobody_reads"},
 	})
 }
 
@@ -93,6 +93,15 @@ func (wd *c08World) register(m *gldap.Mux) {
 				n = 150
 			}
 			for i := 0; i < n; i++ {
+				e := r.NewSearchResponseEntry("cn=e")
+				e.AddAttribute("b", []string{blob})
+				if w.Write(e) != nil {
+					break
+				}
+			}
+		case "stream":
+			// as much as the client will take (it takes nothing: this handler ends when its write fails)
+			for {
 				e := r.NewSearchResponseEntry("cn=e")
 				e.AddAttribute("b", []string{blob})
 				if w.Write(e) != nil {
@@ -226,6 +235,14 @@ func c08OneCell(c *Ctx, wd *c08World, srv *Srv, cell c08Cell, stopper func()) {
 		for i := 0; i < k; i++ {
 			cl.Send(c08Search(int64(10+i), tag+";write"))
 		}
+	case "parked+writer-not-read":
+		// one handler parked on the gate, another one writing a large response that the client does not read
+		k = 2
+		cl.Send(c08Search(10, tag+";park"))
+		cl.Send(c08Search(11, tag+";stream"))
+		// the writer fills the socket buffers and comes to rest inside a write before the connection ends
+		time.Sleep(800 * time.Millisecond)
+		c.Count("stop_endings_with_a_parked_handler_next_to_a_writer_nobody_reads", 1)
 	case "parked-across-upgrade":
 		// handlers of earlier requests are parked, THEN the connection is upgraded with StartTLS (the handshake
 		// succeeds): they are handlers of this connection before and after
@@ -356,7 +373,13 @@ func c08OneCell(c *Ctx, wd *c08World, srv *Srv, cell c08Cell, stopper func()) {
 	// 4. watch the socket; the gate opens only after the grace period
 	var releaseSeq int64
 	eofBeforeRelease := false
-	if clientStays && (cell.Inflight == "parked" || cell.Inflight == "parked-same-id" || cell.Inflight == "parked-after-answering" || cell.Inflight == "parked+handshake-pending" || cell.Inflight == "parked-across-upgrade") {
+	if clientStays && cell.Inflight == "parked+writer-not-read" {
+		// the client reads nothing until well after any grace period (the unread writer's write has failed by then); what
+		// it reads afterwards - see below - is what was queued for it, and no end of the connection: the parked handler
+		// is still running
+		time.Sleep(time.Duration(c.N(2200, 4000)) * time.Millisecond)
+	}
+	if clientStays && (cell.Inflight == "parked" || cell.Inflight == "parked-same-id" || cell.Inflight == "parked-after-answering" || cell.Inflight == "parked+handshake-pending" || cell.Inflight == "parked-across-upgrade" || cell.Inflight == "parked+writer-not-read") {
 		watch := 150 * time.Millisecond
 		if cell.Ending == "stop" {
 			// a server-initiated ending: hold the handlers well beyond any plausible internal grace period
@@ -732,6 +755,7 @@ func c08RunWith(c *Ctx, writeEntries, sweeps int) {
 	for _, e := range []string{"fin", "rst", "stop"} {
 		cells = append(cells, c08Cell{e, "parked-across-upgrade", "plain"})
 	}
+	cells = append(cells, c08Cell{"stop", "parked+writer-not-read", "plain"}, c08Cell{"stop", "parked+writer-not-read", "tls"})
 	reps := c.N(1, 50)
 	if sweeps > 0 {
 		reps = sweeps
